@@ -223,6 +223,16 @@ def builders(model):
         t = {'const': 'weight w', 'array': 'weights w0..w2'}[w]
         B['expr:a * L2Norm[%s]' % t] = lambda I, w=w: I.binop(
             ast.Mult, Rat.var('a'), leaf(I, w))
+        # nested argument scalings (the expression classes flatten them)
+        B['expr:(L2Norm * a) * b[%s]' % t] = lambda I, w=w: I.binop(
+            ast.Mult, I.binop(ast.Mult, leaf(I, w), Rat.var('a')),
+            Rat.var('s'))
+        B['expr:(KullbackLeibler * a) * b[%s]' % t] = lambda I, w=w: I.binop(
+            ast.Mult, I.binop(ast.Mult, leaf(I, w, 'KullbackLeibler'),
+                              Rat.var('a')), Rat.var('s'))
+        B['expr:a * (b * L2Norm)[%s]' % t] = lambda I, w=w: I.binop(
+            ast.Mult, Rat.var('a'), I.binop(ast.Mult, Rat.var('s'),
+                                            leaf(I, w)))
         B['expr:L2Norm * a[%s]' % t] = lambda I, w=w: I.binop(
             ast.Mult, leaf(I, w), Rat.var('a'))
         B['expr:L2Norm * vector[%s]' % t] = lambda I, w=w: I.binop(
